@@ -332,6 +332,11 @@ theorem SilentAttempt.retry {s : Sock} {q : Q α} {k : Nat} (hq : SilentAttempt 
       · rw [nRecvOk_append]; omega
       · rw [nOpened_append]; omega
 
+theorem SilentAttempt.retry1 {s : Sock} {q : Q α} (hq : SilentAttempt s 1 q) (r : Nat) :
+    SilentRun s (r + 1) (r + 1) (retryOnTimeout r q) := by
+  have := hq.retry r
+  rwa [Nat.one_mul] at this
+
 theorem SilentRun.bind_left {s : Sock} {q : Q α} {k b : Nat} (hq : SilentRun s k b q) (f : α → Q β) :
     SilentRun s k b (q >>= f) := by
   intro w n h
